@@ -94,7 +94,10 @@ def root_cause_of_infeasible_bounds(S, seg, b0, bs, rules):
             ids = brute.original_to_ids(S, seg)
             v = seqcheck.check(S, ids) if ids is not None else None
             if v and v.peak > bs:
-                return "stack-bound:below-original-height"
+                # shape of the specification: is an element of the initial stack both kept in the final stack and an
+                # operand of some instruction (it must be duplicated)?  The listed finding has only been seen without it.
+                kept_operand = any(x in S["tgt_ws"] and any(x in u["inpt_sk"] for u in S["user_instrs"]) for x in S["src_ws"])
+                return "stack-bound:below-original-height" + (":kept-input-is-operand" if kept_operand else "")
         return "stack-bound:simplified-spec-deeper-than-original"
     if rules:
         return "rule-lengthens"                        # the rewritten term needs more instructions than the original block had
